@@ -355,12 +355,15 @@ def judge(ck, ta, wd, label, jobs, kind, timeout=1500):
     return recs
 
 
-def confirm(wd, rec, tag, n):
-    """re-run one failing case alone: real code again, TLC again"""
-    op = harness(wd, "confirm%d" % n, [job_of(rec)])
-    r = tlc(spec_of(rec["k"]), spec_of(rec["k"]), "c13-confirm%d" % n, env={"WRAP_RECORDS": op}, cont=True, workers=1, timeout=300)
+def confirm(wd, items, n):
+    """re-run failing cases alone (real code again, TLC again): items = [(kind, tag, rec)], all of one spec.
+    Returns {index: fresh record} for the cases that fail again with the same tag."""
+    op = harness(wd, "confirm%d" % n, [job_of(rec) for _, _, rec in items])
+    spec = spec_of(items[0][0])
+    r = tlc(spec, spec, "c13-confirm%d" % n, env={"WRAP_RECORDS": op}, cont=True, workers=2, timeout=600)
     again = read_ndjson(op)
-    return again[0] if any(t == tag for _, t in r.tuples("FAIL")) else None
+    failed = {(rid, t) for rid, t in r.tuples("FAIL")}
+    return {q: again[q] for q, (_, tag, _) in enumerate(items) if (q + 1, tag) in failed}
 
 
 def known_match(kind, tag):
@@ -373,22 +376,29 @@ def known_match(kind, tag):
 
 def verdicts(ck, ta, wd):
     ck.cov["failing_groups"] = {}
-    n = 0
+    groups = []
     for (kind, tag), cases in sorted(ta.fail.items()):
         cases.sort(key=lambda c: (c[0], c[2]["id"]))
         widths = sorted({c[0] for c in cases})
         ck.cov["failing_groups"]["%s/%s" % (kind, tag)] = {"records": len(cases), "widths": widths}
-        fid = known_match(kind, tag)
-        # the smallest case is confirmed in isolation (real code again, TLC again); the widest one is quoted
-        for w, label, rec in cases[:3]:
+        groups.append((kind, tag, cases, widths))
+    # the smallest case of every group is confirmed in isolation (one batch per specification, then retries)
+    confirmed, n = {}, 0
+    for attempt in range(3):
+        for fam in ("w", "i"):
+            todo = [(k, t, c[attempt][2]) for k, t, c, _ in groups if k.startswith(fam) and (k, t) not in confirmed and len(c) > attempt]
+            if not todo:
+                continue
             n += 1
-            again = confirm(wd, rec, tag, n)
-            if again is not None:
-                break
-            vlib.log("note: %s/%s (record %s of %s) did not reproduce in isolation" % (kind, tag, rec["id"], label))
-        else:
+            for q, rec in confirm(wd, todo, n).items():
+                confirmed[(todo[q][0], todo[q][1])] = rec
+    for kind, tag, cases, widths in groups:
+        again = confirmed.get((kind, tag))
+        if again is None:
+            vlib.log("note: %s/%s (%d records) did not reproduce in isolation" % (kind, tag, len(cases)))
             continue
         what = short(again, tag)
+        fid = known_match(kind, tag)
         if fid:
             ck.known(fid, what)
             continue
